@@ -120,6 +120,8 @@ func (c02) Plan(tier string, seed int64) []core.Scenario {
 	for i := range out {
 		out[i].Seed = seed*999983 + int64(i)
 	}
+	// single-stall pair enumeration on a healthy connection (calls judged here, streams in C07)
+	out = append(out, planStallPairs(tier, seed, "calls")...)
 	return out
 }
 
@@ -138,6 +140,8 @@ func (p c02) Run(sc core.Scenario) core.Result {
 		p.acrossReconnect(sc, r)
 	case "bigmix":
 		p.bigMix(sc, r)
+	case "stallpair":
+		runStallPair(sc, r)
 	}
 	return r.Result()
 }
